@@ -178,6 +178,7 @@ class Model:
             self.assoc[m.table] = set()
         self.committed = (copy.deepcopy(self.rows), copy.deepcopy(self.assoc))
         self.dirty = set()  # objects with attribute events since the last flush
+        self.reltouched = set()  # (link, child) whose parent was assigned (even to the same object) since the last flush
         self.soft = set()  # (link, child): de-associated through the many-to-one side; in lenient mode the orphan rule may or may not fire
         self.strict_orphans = False
         self.quirks = frozenset()
@@ -195,6 +196,7 @@ class Model:
         m.par = dict(self.par)
         m.deparented = set(self.deparented)
         m.dirty = set(self.dirty)
+        m.reltouched = set(self.reltouched)
         m.fuzzy = set(self.fuzzy)
         m.soft = set(self.soft)
         m.strict_orphans = self.strict_orphans
@@ -404,6 +406,8 @@ class Model:
     def _set_parent(self, link, c, p, via):
         """via: 'm2o' (c.parent = p) or 'o2m' (p.children.append(c) / remove)"""
         old = self.parent(link, c)
+        if p is not None:
+            self.reltouched.add((link.name, c))
         if old == p:
             return
         if p is not None and not link.uselist:
@@ -667,7 +671,7 @@ class Model:
                 for l in m.links_as_holder(o.cls):
                     p = m.parent(l, n)
                     if (l.o2m and p is not None and p not in dele and m.objs[p].life in "PS" and o.life == "S"
-                            and m.rows[l.table].get(o.dbpk, {}).get(l.fk) != m.objs[p].dbpk):
+                            and (m.rows[l.table].get(o.dbpk, {}).get(l.fk) != m.objs[p].dbpk or (l.name, n) in m.reltouched)):
                         dele.discard(n)
         sess = [n for n in sorted(m.objs) if m.objs[n].life in "PS"]
         warn_dead = None
@@ -698,7 +702,7 @@ class Model:
                     elif o.life == "S" and "delete" in l.c_o2m:
                         pass  # only in the variant where an orphan is deleted without its cascade: nothing nulls either
                     elif o.life == "S":
-                        if rows[l.table].get(o.dbpk, {}).get(l.fk) != m.objs[p].dbpk:
+                        if rows[l.table].get(o.dbpk, {}).get(l.fk) != m.objs[p].dbpk or (l.name, n) in m.reltouched:
                             open_ = True  # associated with the deleted parent since the last flush: open
                         m.par[(l.name, n)] = None
                     else:
@@ -863,6 +867,7 @@ class Model:
                 m.mm[k] = [r for r in m.mm[k] if m.objs[r].life != "X"]
         m.deparented = {(l, c) for (l, c) in m.deparented if m.objs[c].life != "X"}
         m.dirty = set()
+        m.reltouched = set()
         m.rows, m.assoc = rows, assoc
         m.open = False
         if warn_dead:
@@ -1010,7 +1015,7 @@ class Model:
     def canon(self):
         objs = tuple((n, o.cls, o.life, o.marked, o.oos, tuple(sorted(o.vals.items(), key=repr))) for n, o in sorted(self.objs.items()))
         return (objs, tuple(sorted(self.par.items(), key=repr)), tuple(sorted((k, tuple(v)) for k, v in self.mm.items())),
-                tuple(sorted(self.deparented)), tuple(sorted(self.soft)), tuple(sorted(self.dirty)), repr(self.rows_as_lists()), self.dead, self.open)
+                tuple(sorted(self.deparented)), tuple(sorted(self.soft)), tuple(sorted(self.dirty)), tuple(sorted(self.reltouched)), repr(self.rows_as_lists()), self.dead, self.open)
 
 
 # ---------------------------------------------------------------- alphabet
